@@ -50,7 +50,7 @@ CHECKS = {
         note="'never crashes' is empirical over the replayed schedules and the stress; F10 fixed; F15 (3.9/3.10 implementation has no protocol; stress can SIGSEGV) known finding; probe placement preserves the atomicity of re-check + slot read",
         ref="3.5, 4 C07"),
     "C08": dict(
-        technique="WithLang.tla behaviours + systematic sweep of 24 target forms x 6 layouts x arity x sync/async; start_line and varname of every reported context compared with the program AST on 3.9-3.12",
+        technique="WithLang.tla behaviours + systematic sweep of 28 target forms x 6 layouts x arity x sync/async; start_line and varname of every reported context compared with the program AST on 3.9-3.12",
         text="which manager is reported where comes from the spec; the line of its with keyword and its target come from the AST that was rendered; varname is parsed and compared structurally",
         note="static leg (stdlib with statements, unexecuted) not claimed; target grammar is the table in harness/progs.py",
         ref="3.6, 4 C08"),
